@@ -4,6 +4,7 @@
 (* blocks.  An address is a pair <<hi, lo>> with 0 <= lo < 2^20 (TLC's     *)
 (* integers are 32 bit wide).                                              *)
 (*   NonNull, LargeEnough (usable >= requested), Aligned(g),               *)
+(*   (sizes are pairs <<megabytes, bytes>> for the same reason),           *)
 (*   Disjoint   a new block overlaps no live block of any allocator        *)
 (*              (hence a block is reused only after it was freed),         *)
 (*   FreeOfLive only live blocks are freed; Clear(h) ends the life of all  *)
@@ -11,16 +12,17 @@
 (***************************************************************************)
 EXTENDS Integers, FiniteSets
 M == 1048576
-VARIABLE live                       \* set of <<heap, hi, lo, size>>
-End(b) == <<b[2] + (b[3] + b[4]) \div M, (b[3] + b[4]) % M>>
+VARIABLE live                       \* set of <<heap, hi, lo, size, sizeM>>: the block is sizeM * 2^20 + size bytes long (size < 2^20)
+End(b) == <<b[2] + b[5] + (b[3] + b[4]) \div M, (b[3] + b[4]) % M>>
 Leq(x, y) == x[1] < y[1] \/ (x[1] = y[1] /\ x[2] <= y[2])
 Disjoint(a, b) == Leq(End(a), <<b[2], b[3]>>) \/ Leq(End(b), <<a[2], a[3]>>)
 Aligned(hi, lo, g) == IF g <= M THEN lo % g = 0 ELSE lo = 0 /\ hi % (g \div M) = 0
+\* req and usable are sizes <<megabytes, bytes>> (arrays of several gigabytes do not fit TLC's integers otherwise)
 Alloc(h, hi, lo, req, usable, g, isnull) ==
-  /\ isnull = 0 /\ usable >= req /\ usable > 0
+  /\ isnull = 0 /\ Leq(req, usable) /\ usable # <<0, 0>> /\ usable[2] < M /\ req[2] < M
   /\ Aligned(hi, lo, g)
-  /\ \A b \in live : Disjoint(<<h, hi, lo, usable>>, b)
-  /\ live' = live \cup {<<h, hi, lo, usable>>}
+  /\ \A b \in live : Disjoint(<<h, hi, lo, usable[2], usable[1]>>, b)
+  /\ live' = live \cup {<<h, hi, lo, usable[2], usable[1]>>}
 Free(h, hi, lo) ==
   /\ \E b \in live : b[1] = h /\ b[2] = hi /\ b[3] = lo
   /\ live' = {b \in live : ~(b[1] = h /\ b[2] = hi /\ b[3] = lo)}
